@@ -175,4 +175,10 @@ def eqCandsLin (np : Path) : List (E × E) :=
     | .lt x y | .le x y | .eq x y => if reachLE es linDepth x y && reachLE es linDepth y x then some (x, y) else none
     | _ => none
 
+/-- the arithmetic oracle first (one fact + slack), then the transitive order oracle -/
+def impliedAll (path : Path) (c : C) : Option Bool :=
+  match implied true path c with
+  | some b => some b
+  | none => impliedLin path c
+
 end Glm
